@@ -273,27 +273,36 @@ func pairStrs(ps [][2]int64) w.Val {
 	}
 	return l
 }
-func groupsVal(gs []*object.FromExtendedSpatialIDToQuadkeyAndVerticalID) w.Val {
+
+// A group is reported as [header; pairs]. header = "quadkeyZoom/verticalZoom/=" when the group carries the request's own parameters
+// (heights resp. zBaseExponent/zBaseOffset) unchanged — the form the model produces —, otherwise the parameters are spelled out.
+func groupsVal(gs []*object.FromExtendedSpatialIDToQuadkeyAndVerticalID, mx, mn float64) w.Val {
 	l := make(w.List, 0, len(gs))
 	for _, g := range gs {
 		if g == nil {
 			l = append(l, w.S("<nil group>"))
 			continue
 		}
-		h := fmt.Sprintf("%d/%d/%016x/%016x", g.QuadkeyZoom(), g.VerticalZoom(), math.Float64bits(g.MaxHeight()), math.Float64bits(g.MinHeight()))
-		l = append(l, w.L(w.S(h), pairStrs(g.InnerIDList())))
+		par := "="
+		if math.Float64bits(g.MaxHeight()) != math.Float64bits(mx) || math.Float64bits(g.MinHeight()) != math.Float64bits(mn) {
+			par = fmt.Sprintf("%016x/%016x", math.Float64bits(g.MaxHeight()), math.Float64bits(g.MinHeight()))
+		}
+		l = append(l, w.L(w.S(fmt.Sprintf("%d/%d/%s", g.QuadkeyZoom(), g.VerticalZoom(), par)), pairStrs(g.InnerIDList())))
 	}
 	return l
 }
-func groupsAltVal(gs []*object.FromExtendedSpatialIDToQuadkeyAndAltitudekey) w.Val {
+func groupsAltVal(gs []*object.FromExtendedSpatialIDToQuadkeyAndAltitudekey, E, O int64) w.Val {
 	l := make(w.List, 0, len(gs))
 	for _, g := range gs {
 		if g == nil {
 			l = append(l, w.S("<nil group>"))
 			continue
 		}
-		h := fmt.Sprintf("%d/%d/%d/%d", g.QuadkeyZoom(), g.AltitudekeyZoom(), g.ZBaseExponent(), g.ZBaseOffset())
-		l = append(l, w.L(w.S(h), pairStrs(g.InnerIDList())))
+		par := "="
+		if g.ZBaseExponent() != E || g.ZBaseOffset() != O {
+			par = fmt.Sprintf("%d/%d", g.ZBaseExponent(), g.ZBaseOffset())
+		}
+		l = append(l, w.L(w.S(fmt.Sprintf("%d/%d/%s", g.QuadkeyZoom(), g.AltitudekeyZoom(), par)), pairStrs(g.InnerIDList())))
 	}
 	return l
 }
@@ -493,7 +502,7 @@ var ops = []*op{
 		ids, same := strsIn(a[0])
 		return &inst{call: func() w.Val {
 			gs, err := transform.ConvertExtendedSpatialIDsToQuadkeysAndVerticalIDs(ids, oh, ov, mx, mn)
-			return w.WithErr(groupsVal(gs), err)
+			return w.WithErr(groupsVal(gs, mx, mn), err)
 		}, same: same}
 	}},
 	{name: "ConvertSpatialIDsToQuadkeysAndVerticalIDs", lists: []int{0}, zkey: zkeySid, build: func(a []w.Val) *inst {
@@ -504,7 +513,7 @@ var ops = []*op{
 		ids, same := strsIn(a[0])
 		return &inst{call: func() w.Val {
 			gs, err := transform.ConvertSpatialIDsToQuadkeysAndVerticalIDs(ids, oh, ov, mx, mn)
-			return w.WithErr(groupsVal(gs), err)
+			return w.WithErr(groupsVal(gs, mx, mn), err)
 		}, same: same}
 	}},
 	// [ids; outputQuadkeyZoom; outputAltitudekeyZoom; zBaseExponent; zBaseOffset]
@@ -538,7 +547,7 @@ var ops = []*op{
 		ids, same := strsIn(a[0])
 		return &inst{call: func() w.Val {
 			gs, err := transform.ConvertExtendedSpatialIDsToQuadkeysAndAltitudekeys(ids, oq, oa, E, O)
-			return w.WithErr(groupsAltVal(gs), err)
+			return w.WithErr(groupsAltVal(gs, E, O), err)
 		}, same: same}
 	}},
 	// [items; outputHZoom; outputVZoom], item = [quadkeyZoom; quadkey; vZoom; vIndex; maxHeight; minHeight]
@@ -618,6 +627,21 @@ var ops = []*op{
 				p := e.FieldParams()
 				return e.ID() == snap && len(p) == 5 && p[0] == n[0] && p[1] == n[1] && p[2] == n[2] && p[3] == n[3] && p[4] == n[4]
 			}}
+	}},
+	// the exported per-axis helpers of the zoom change: scalar arguments only (nothing to modify), one result list
+	{name: "HorizontalZoom", build: func(a []w.Val) *inst {
+		zin, x, y, zout := w.AsInt(a[0]), w.AsInt(a[1]), w.AsInt(a[2]), w.AsInt(a[3])
+		if zout-zin > 5 || big(x, 1<<40+1) || big(y, 1<<40+1) || big(zin, 64) || big(zout, 64) {
+			return nil
+		}
+		return &inst{call: func() w.Val { return w.Strs(integrate.HorizontalZoom(zin, x, y, zout)) }, same: func() bool { return true }}
+	}},
+	{name: "VerticalZoom", build: func(a []w.Val) *inst {
+		zin, f, zout := w.AsInt(a[0]), w.AsInt(a[1]), w.AsInt(a[2])
+		if zout-zin > 11 || big(f, 1<<40+1) || big(zin, 64) || big(zout, 64) {
+			return nil
+		}
+		return &inst{call: func() w.Val { return w.Strs(integrate.VerticalZoom(zin, f, zout)) }, same: func() bool { return true }}
 	}},
 	{name: "Unique", lists: []int{0}, build: func(a []w.Val) *inst {
 		l, same := strsIn(a[0])
